@@ -69,18 +69,19 @@ type Project struct {
 
 // Layout is the presentation vector: every combination prints the same project.
 type Layout struct {
-	NL        string `json:"nl"`         // "\n", "\r\n", "\r"
-	Multi     int    `json:"multi"`      // 0 inline //, 1 /* */ on one line, 2 /* */ with the note on its own line
-	Quote     int    `json:"quote"`      // rule names: 0 bare, 1 quoted, 2 quoted at the top / bare in nested rule-sets, 3 the reverse, 4 every second name
-	Pad       int    `json:"pad"`        // 0..2 extra blanks around tokens, 3 a tab, 4 a blank and a tab
-	Comments  int    `json:"comments"`   // 0 none, 1 '#' lines, 2 '###' blocks and end-of-line '#', 3 like 1 and end-of-line, but every comment is empty ('#' and nothing else), 4 like 2 plus a two-line ### block between a scalar and its annotation
-	LeadBlank int    `json:"lead_blank"` // blank lines before
-	TailBlank int    `json:"tail_blank"` // blank lines after
+	NL        string `json:"nl"`              // "\n", "\r\n", "\r"
+	Multi     int    `json:"multi"`           // 0 inline //, 1 /* */ on one line, 2 /* */ with the note on its own line
+	Quote     int    `json:"quote"`           // rule names: 0 bare, 1 quoted, 2 quoted at the top / bare in nested rule-sets, 3 the reverse, 4 every second name
+	Pad       int    `json:"pad"`             // 0..2 extra blanks around tokens, 3 a tab, 4 a blank and a tab
+	Comments  int    `json:"comments"`        // 0 none, 1 '#' lines, 2 '###' blocks and end-of-line '#', 3 like 1 and end-of-line, but every comment is empty ('#' and nothing else), 4 like 2 plus a two-line ### block between a scalar and its annotation
+	Split     int    `json:"split,omitempty"` // an annotation written as two: 1 = `/* note */ // {rules}` (or `/* {first rule} */ // {the rest}`) on one line, 2 = `// {rules}` and the note as `// note` on the next line
+	LeadBlank int    `json:"lead_blank"`      // blank lines before
+	TailBlank int    `json:"tail_blank"`      // blank lines after
 }
 
 func (l Layout) String() string {
 	nl := map[string]string{"\n": "lf", "\r\n": "crlf", "\r": "cr"}[l.NL]
-	return fmt.Sprintf("nl=%s multi=%d quote=%v pad=%d comments=%d lead=%d tail=%d", nl, l.Multi, l.Quote, l.Pad, l.Comments, l.LeadBlank, l.TailBlank)
+	return fmt.Sprintf("nl=%s multi=%d quote=%v pad=%d comments=%d split=%d lead=%d tail=%d", nl, l.Multi, l.Quote, l.Pad, l.Comments, l.Split, l.LeadBlank, l.TailBlank)
 }
 
 func jsonString(s string) string {
@@ -144,6 +145,22 @@ func (l Layout) quoted(depth, i int) bool {
 
 func (l Layout) ruleSet(rules []Rule) string { return l.ruleSetAt(rules, 0) }
 
+// ruleSetFrom prints rules[from:] (quoting decided by the position in the whole list).
+func (l Layout) ruleSetFrom(rules []Rule, from int) string {
+	var parts []string
+	for i, r := range rules {
+		if i < from {
+			continue
+		}
+		name := r.N
+		if l.quoted(0, i) {
+			name = `"` + name + `"`
+		}
+		parts = append(parts, name+l.sp()+":"+l.sp()+" "+l.ruleVal(r.V))
+	}
+	return "{" + l.sp() + strings.Join(parts, ","+l.sp()+" ") + l.sp() + "}"
+}
+
 func (l Layout) ruleSetAt(rules []Rule, depth int) string {
 	var parts []string
 	for i, r := range rules {
@@ -180,6 +197,21 @@ func (l Layout) annotation(a Ann, notes []string, indent string) string {
 	body := l.annBody(a, notes, indent)
 	if body == "" {
 		return ""
+	}
+	// one annotation written as two (the element is the same: the rules in their order, the note)
+	if l.Comments != 4 && len(a.Rules) > 0 {
+		note := ""
+		if a.Note > 0 {
+			note = notes[a.Note-1]
+		}
+		switch {
+		case l.Split == 1 && note != "":
+			return " /*" + l.sp() + " " + note + " */ //" + l.sp() + " " + l.ruleSet(a.Rules)
+		case l.Split == 1 && len(a.Rules) > 1:
+			return " /*" + l.sp() + " " + l.ruleSet(a.Rules[:1]) + " */ //" + l.sp() + " " + l.ruleSetFrom(a.Rules, 1)
+		case l.Split == 2 && note != "":
+			return " //" + l.sp() + " " + l.ruleSet(a.Rules) + l.NL + indent + "  // " + note
+		}
 	}
 	if l.Multi == 0 {
 		return " //" + l.sp() + " " + body
